@@ -23,9 +23,32 @@ KEEP = ["a", "b", "c"]
 
 def gen_structured(rng: random.Random):
     """returns (terms, ctx, xs)"""
-    m = rng.random()
     k = lambda: float(rng.choice([1, 2, 3]))  # noqa: E731
     s = lambda: float(rng.choice([-1, 1]))    # noqa: E731
+    if rng.random() < 0.05:
+        # partial success: the only context row that bounds x in the needed direction mentions ANOTHER variable to eliminate (y) next
+        # to kept ones, and y has a bound of its own.  A tactic that substitutes the row (5) leaves a term that still mentions y:
+        # a relaxation must then drop it, a refinement must go on or fail — the result may never mention x or y.
+        sg = s()
+        t = {"c": {"a": sg * k(), "x": -sg * k()}, "k": float(rng.randint(-2, 4))}
+        link = {"c": {"x": sg * k(), "y": -sg * k(), "b": -sg * k()}, "k": float(rng.randint(0, 3))}
+        ctx = [link, {"c": {"y": sg}, "k": float(rng.randint(1, 6))}, {"c": {"b": sg}, "k": float(rng.randint(1, 4))}]
+        if rng.random() < 0.4:
+            del link["c"]["b"]
+            ctx = ctx[:2]
+        return [t], ctx, ["x", "y"]
+    if rng.random() < 0.03:
+        # three coupled variables: the column of x receives off-diagonal contributions from the rows of y and of z, each below the
+        # diagonal entry's share and together above it (3/4 + 3/4 > 1): Kaykobad's condition fails only through the SUM
+        sg = s()
+        dy, dz = float(rng.choice([4, 5])), float(rng.choice([4, 5]))
+        t = {"c": {"x": sg, "y": sg, "z": sg, "a": sg * k()}, "k": float(rng.randint(-2, 3))}
+        ctx = [{"c": {"x": 2.0 * sg, "b": -sg}, "k": 0.0}, {"c": {"x": 3.0 * sg, "y": dy * sg, "c": -sg}, "k": 0.0},
+               {"c": {"x": 3.0 * sg, "z": dz * sg, "d": -sg}, "k": float(rng.randint(0, 2))}]
+        if rng.random() < 0.5:
+            rng.shuffle(ctx)
+        return [t], ctx, ["x", "y", "z"]
+    m = rng.random()
     if m < 0.05:   # mutual helpers: two terms bound the same eliminated variable in the same direction; the context bounds it through
         # a chain or not at all.  Each may be discharged only with the already transformed sibling as helper.
         sg = s()
